@@ -166,6 +166,14 @@ def positions(e):
     out.append(("builtin-arg-ucall", ["PRINT LEFT$(" + ts + ", " + tn + ")"], {"k": "need", "e": bcall("LEFT$", fns, fnn), "kind": "any"}))
     out.append(("select-subject", ["SELECT CASE " + t, "CASE ELSE", "PRINT 1", "END SELECT"], {"k": "need", "e": e, "kind": "top"}))
     out.append(("sub-arg-num", ["SN (" + t + ")"], {"k": "need", "e": ucall("FD#", ["n"], "n", par(e)), "kind": "any"}))
+    # the argument lists of built-in STATEMENTS, directly and inside built-in functions nested there
+    out.append(("stmt-locate", ["LOCATE 1, " + t], {"k": "need", "e": e, "kind": "n"}))
+    out.append(("stmt-locate-nested", ["LOCATE 1, LEN(UCASE$((" + t + "))) + 1"],
+                {"k": "need", "e": bin_("+", bcall("LEN", bcall("UCASE$", par(e))), lit("I", 1)), "kind": "n"}))
+    out.append(("stmt-color-nested", ['COLOR INSTR("abc", (' + t + "))"], {"k": "need", "e": bcall("INSTR", lit("$", "abc"), par(e)), "kind": "n"}))
+    out.append(("stmt-kill-nested", ['KILL "zz" + LEFT$("abc", (' + t + "))"],
+                {"k": "need", "e": bin_("+", lit("$", "zz"), bcall("LEFT$", lit("$", "abc"), par(e))), "kind": "s"}))
+    out.append(("stmt-poke-nested", ["POKE VARPTR(A%), LEN(LTRIM$((" + t + ")))"], {"k": "need", "e": bcall("LEN", bcall("LTRIM$", par(e))), "kind": "n"}))
     out.append(("nested-arg", ["PRINT FN%(LEN(UCASE$((" + t + "))))"],
                 {"k": "need", "e": ucall("FN%", ["n"], "n", bcall("LEN", bcall("UCASE$", par(e)))), "kind": "any"}))
     return out
